@@ -213,11 +213,14 @@ class Sim:
         elif not self.pkt_ack_inner(k, pid):
             self.do_close()
 
-    def wait_publish_response(self, pid, ack, rem, tag):
+    def wait_publish_response(self, pid, ack, rem, tag, big=False):
         if self.srem:
             return None, 5
         if pid in self.ids:
             return None, 4
+        if big and self.io == 0:
+            # the PUBLISH exceeds the maximum outbound packet size: the encoder refuses, nothing is registered
+            return None, 5
         self.enc_publish(tag, pid, rem)
         self.srem = rem
         c = self.new_chan()
@@ -264,7 +267,7 @@ class Sim:
             if x.k == 7 and not self.chans[x.sm["sg"]][1]:
                 return self.set(x, "done", 7)
             c, e = self.wait_publish_response(pid, 2 if x.k == 2 else 1, x.size if x.k == 7 else 0,
-                                              2 if x.k == 2 else 1)
+                                              2 if x.k == 2 else 1, x.k == 8)
             if x.k == 7:
                 self.send(x.sm["sg"])
         if e is None:
@@ -282,7 +285,7 @@ class Sim:
 
     def start(self, t, k, idq=0, size=0):
         idq %= 65536
-        if t in self.tasks or k == 0 or k > 7:
+        if t in self.tasks or k == 0 or k > 8:
             return
         if k == 6:
             x = Task(k)
@@ -322,7 +325,7 @@ class Sim:
     def create(self, t, k, idq=0, size=0):
         """operation 16: the API call without the first poll"""
         idq %= 65536
-        if t in self.tasks or k == 0 or k > 7:
+        if t in self.tasks or k == 0 or k > 8:
             return
         if k == 6:
             return self.start(t, k, idq, size)
@@ -599,9 +602,16 @@ def choices_small(s, ntasks, kinds, role, create=False):
     if n < ntasks:
         for k in kinds:
             ch.append([1, n + 1, k, 0])
+        # a QoS 1 send that cannot be encoded (kind 8): only as the second task of the cap 1 schedules (it parks
+        # behind the first send, or fails at once when that one is gone), which keeps the enumeration within ~15 %
+        fail8 = n == 1 and s.cap == 1
+        if fail8:
+            ch.append([1, n + 1, 8, 0])
         if create:
             for k in kinds:
                 ch.append([16, n + 1, k, 0])
+            if fail8:
+                ch.append([16, n + 1, 8, 0])
     for t in s.pending():
         ch.append([2, t])
         ch.append([3, t])
@@ -681,9 +691,9 @@ def rand_case(rng, ver, role=0, maxlen=40, flavour=None, p_create=0.0):
     if flavour == "wrap":
         ops.append([12, rng.choice([65533, 65533, 65532, 65534] + ([65535] if rng.random() < 0.1 else []))])
         s.step(ops[-1])
-    kinds = {"window": [1, 1, 1, 5, 5, 3, 2], "qos2": [2, 2, 2, 2, 1], "ids": [1, 2, 3, 4, 1, 2],
-             "stream": [7, 7, 7, 1, 1, 3, 6, 2, 5], "wrap": [1, 1, 2, 3], "errors": [1, 2, 3, 5, 7, 6],
-             "mixed": [1, 1, 2, 2, 3, 4, 5, 6, 7]}[flavour]
+    kinds = {"window": [1, 1, 1, 5, 5, 3, 2, 8], "qos2": [2, 2, 2, 2, 1], "ids": [1, 2, 3, 4, 1, 2, 8, 8],
+             "stream": [7, 7, 7, 1, 1, 3, 6, 2, 5], "wrap": [1, 1, 2, 3, 8], "errors": [1, 2, 3, 5, 7, 6, 8, 8],
+             "mixed": [1, 1, 2, 2, 3, 4, 5, 6, 7, 8]}[flavour]
     if role == 0:
         # a server never sees the SUBACK/UNSUBACK (its dispatcher ignores them): such an entry jams the
         # in-flight queue for good, keep them rare on that side
@@ -1072,6 +1082,22 @@ SEEDS = [
     "1,0;1,1,1,0;1,2,7,0,5;3,2;13,2,2",
     # the window is closed from the start
     "0,0;1,1,1,0;1,2,5,0;9,1;2,1;2,2",
+    # kind 8: a PUBLISH larger than the maximum outbound packet size fails with the Encode error and reserves
+    # nothing: the explicit id 7 fails to encode, then the same id is used successfully
+    "2,0;1,1,8,7;1,2,1,7;4,1,7;2,2",
+    # ... parked behind a full window, woken by the ack, fails when polled (automatic id: one id is consumed)
+    "1,0;1,1,1,0;1,2,8,0;4,1,1;2,2;2,1;1,3,1,0;4,1,3;2,3",
+    # ... and does not pass the wake on: the sender parked behind it stays parked (recorded finding woken-waiter-fails)
+    "1,0;1,1,1,0;1,2,8,0;1,3,1,0;4,1,1;2,2;2,1;2,3",
+    # ... parked with the explicit id of the packet in flight: free again when it is woken, the encode fails, the
+    # next send takes the id;  the id still in use: PacketIdInUse comes before the encode
+    "1,0;1,1,1,5;1,2,8,5;4,1,5;2,2;2,1;1,3,1,5;4,1,5;2,3",
+    "2,0;1,1,1,5;1,2,8,5;4,1,5;2,1;1,3,8,5;1,4,1,5",
+    # ... automatic ids (also across the wrap): every failed send has consumed one
+    "3,0;12,65533;1,1,8,0;1,2,1,0;1,3,8,0;1,4,1,0;4,1,65535;4,1,2;2,2;2,4",
+    # ... while a streamed payload is owed (ExpectPayload comes first), created without the first poll, closed while parked
+    "2,0;1,1,7,0,4;1,2,8,0;13,1,4;1,3,8,0;16,4,8,3;16,5,1,3;2,4;2,5;4,1,1;4,1,3;2,1;2,5",
+    "1,0;1,1,1,0;1,2,8,0;16,3,8,0;10;2,2;2,3;2,1",
 ]
 
 
